@@ -4,6 +4,7 @@ The "process" is the training loop of the class docstring.  It runs real
 ``pydrobert.torch.training`` code, real ``torch.save/load`` and real ``csv`` on a SimFS.
 """
 import io
+import posixpath
 import math
 import warnings
 
@@ -273,6 +274,23 @@ def make_params(sc):
     return TrainingStateParams(**sc["params"])
 
 
+def paths_for(sc, epoch):
+    """Checkpoint paths of an epoch; formats may use the epoch and the two metrics."""
+    p = sc["params"]
+    tm, vm = sc["metrics"][epoch - 1] if 1 <= epoch <= len(sc["metrics"]) else (float("inf"), float("inf"))
+    info = {"epoch": epoch, "train_met": tm, "val_met": vm}
+    return (
+        posixpath.normpath(posixpath.join(sc["state_dir"], p["saved_model_fmt"].format(**info))),
+        posixpath.normpath(posixpath.join(sc["state_dir"], p["saved_optimizer_fmt"].format(**info))),
+    )
+
+
+def collides(sc, epoch, earlier):
+    """Does a checkpoint path of ``epoch`` equal one of an epoch in ``earlier``?"""
+    mine = set(paths_for(sc, epoch))
+    return any(mine & set(paths_for(sc, e)) for e in earlier if e != epoch)
+
+
 class Refused(Exception):
     pass
 
@@ -329,7 +347,9 @@ class Job:
         try:
             cont = ctrl.update_for_epoch(self.model, self.opt, tm, vm, best_is_train=self.sc["best_is_train"], **self.entries_for(e))
         except ValueError as err:
-            if "would overwrite" in str(err):
+            # the documented refusal to overwrite the best checkpoint: legitimate exactly when only the last and
+            # best are kept and the new epoch's paths equal an earlier epoch's (whatever the message says)
+            if self.sc["params"]["keep_last_and_best_only"] and collides(self.sc, e, range(0, e)):
                 self.refused_at = e
                 raise Refused(str(err))
             raise
